@@ -18,6 +18,12 @@ var _ backoff.BackOff
 
 //@ func parseCipherSuiteRecordData
 //@ props C05 C16
+//@ assigns nothing
+//@ invariant 1 [frame.integ-new] isnew(integrityAlgorithms)
+//@ invariant 2 [frame.conf-new] isnew(confidentialityAlgorithms)
+//@ invariant 4 [C16.cross-inner] len(records) == atentry(len(records)) + rangeindex + 1
+//@ invariant 3 [C16.cross-outer] len(records) == atentry(len(records)) + (rangeindex+1)*len(confidentialityAlgorithms)
+//@ ensures [C16.no-partial] result1 != nil ==> isnil(result0)
 
 // ---- v2session.go: the retry closure of an in-session command
 //
@@ -93,6 +99,7 @@ var _ backoff.BackOff
 
 //@ func (*V2Sessionless).SendCommand
 //@ props C05 C18
+//@ option keeps-request:c
 //@ ensures [C18.attempts] metricvec(commandAttempts, c.Name()) == old(metricvec(commandAttempts, c.Name()))+1
 //@ ensures [C18.failures] metricvec(commandFailures, c.Name()) == old(metricvec(commandFailures, c.Name()))+ite(result1 != nil, 1, 0)
 //@ ensures [C18.frame] metricsOnly(commandAttempts, commandFailures, commandRetries, commandResponses)
@@ -426,7 +433,13 @@ func specHMACInit(a ipmi.AuthenticationAlgorithm, key []byte) int {
 //@ ensures [C01+C02.sik-stored] result1 == nil ==> window(result0.SIK, sik, 0, len(sik))
 
 //@ func RetrieveSupportedCipherSuites
-//@ props C12 C18
+//@ props C12 C16 C18
+//@ invariant 0 [C16.index-inv] getChannelCipherSuitesCmd.Req.ListIndex <= 64 && getChannelCipherSuitesCmd.Req.Channel == ipmi.ChannelPresentInterface
+//@ invariant 0 [C16.full-so-far] getChannelCipherSuitesCmd.Req.ListIndex > 0 ==> len(getChannelCipherSuitesCmd.Rsp.CipherSuiteRecordsChunk) >= 16
+//@ decreases 0 65 - int(getChannelCipherSuitesCmd.Req.ListIndex)
+//@ at V2Sessionless).SendCommand assert [C16.next-after-full] getChannelCipherSuitesCmd.Req.ListIndex > 0 ==> len(getChannelCipherSuitesCmd.Rsp.CipherSuiteRecordsChunk) >= 16
+//@ at Buffer).Write assert [C16.chunk-joined] aliases(arg[[]byte](1), getChannelCipherSuitesCmd.Rsp.CipherSuiteRecordsChunk, 0, len(getChannelCipherSuitesCmd.Rsp.CipherSuiteRecordsChunk))
+//@ at Buffer).Bytes assert [C16.stop] getChannelCipherSuitesCmd.Req.ListIndex == 64 || len(getChannelCipherSuitesCmd.Rsp.CipherSuiteRecordsChunk) < 16
 //@ invariant 0 [inv.loop-a] connValid(s.V2Sessionless)
 //@ invariant 0 [inv.loop-b] s.V2Sessionless == old(s.V2Sessionless)
 //@ invariant 0 [inv.loop-c] !isnil(s.V2Sessionless)
@@ -457,6 +470,7 @@ func specHMACInit(a ipmi.AuthenticationAlgorithm, key []byte) int {
 
 //@ func (*V2Session).SendCommand
 //@ props C05 C18
+//@ option keeps-request:c
 //@ requires [sess.valid] !isnil(s) && !isnil(s.v2ConnectionShared) && !isnil(s.buffer) && !isnil(s.transport) && !isnil(c) && !isnil(s.decode) && !isnil(ctx) && !isnil(s.confidentialityLayer) && !isnil(s.backoff)
 //@ requires [C09.bound] s.AuthenticatedSequenceNumbers.Inbound < 0xfffffffe
 //@ ensures [C18.attempts] metricvec(commandAttempts, c.Name()) == old(metricvec(commandAttempts, c.Name()))+1
